@@ -38,11 +38,13 @@ func (t *XMPPTransport) Connect() (string, error) {
 	// The transport is reused for every reconnection: a new TCP connection is never secure before STARTTLS
 	t.isSecure = false
 
-	t.conn, err = net.DialTimeout("tcp", t.Config.Address, time.Duration(t.Config.ConnectTimeout)*time.Second)
+	conn, err := net.DialTimeout("tcp", t.Config.Address, time.Duration(t.Config.ConnectTimeout)*time.Second)
 	if err != nil {
-		// Not being able to reach the server (connection refused, timeout) is not a permanent condition
+		// Not being able to reach the server (connection refused, timeout) is not a permanent condition.
+		// t.conn is left alone: the keepalive of the session that just ended may still be about to ping it.
 		return "", NewConnError(err, false)
 	}
+	t.conn = conn
 	if verifEnabled {
 		t.conn = verifWrapConn(t.conn)
 	}
@@ -118,6 +120,9 @@ func (t *XMPPTransport) StartTLS() error {
 }
 
 func (t *XMPPTransport) Ping() error {
+	if t.conn == nil {
+		return errors.New("cannot ping: not connected")
+	}
 	n, err := t.conn.Write([]byte("\n"))
 	if err != nil {
 		return err
